@@ -192,6 +192,9 @@ class Continuous(AgentSchedulingComponent):
         free_lfs = node.get('lfs') or 0
         free_mem = node.get('mem') or 0
 
+        # GPU shares handed out to the slots collected so far
+        gpu_shares = dict()
+
         # find at most `n_slots`
         loop_core_idx = 0
         loop_gpu_idx  = 0
@@ -258,13 +261,23 @@ class Continuous(AgentSchedulingComponent):
 
             elif gpus_per_slot > 0.0:
 
-                # find a GPU which has sufficient space left
+                # find a GPU which has sufficient space left - also consider
+                # the shares handed to earlier slots of this request, and skip
+                # blocked GPUs
                 for gpu_idx,gpu_occ in enumerate(node['gpus'][loop_gpu_idx:],
                                                               loop_gpu_idx):
+
+                    if gpu_occ == rpc.DOWN:
+                        loop_gpu_idx = gpu_idx + 1
+                        continue
+
+                    gpu_occ += gpu_shares.get(gpu_idx, 0.0)
 
                     if gpus_per_slot <= rpc.BUSY - gpu_occ:
                         slot['gpus'].append(RO(index=gpu_idx,
                                                occupation=gpus_per_slot))
+                        gpu_shares[gpu_idx] = gpu_shares.get(gpu_idx, 0.0) \
+                                            + gpus_per_slot
                         break
                     else:
                         loop_gpu_idx = gpu_idx + 1
